@@ -321,6 +321,12 @@ class Check:
             return
         self.violations.append((key, what, replay, found_input))
 
+    def probe(self, key, what, replay, still_fails):
+        """Re-observe a listed known finding on its specific input; `still_fails` is the observed verdict."""
+        self.coverage.setdefault("known_finding_probes", {})[key] = bool(still_fails)
+        if still_fails:
+            self.violation(key, what, replay)
+
     def proof_step(self, bv_allow=()):
         """Build Props/<prop> + gmodel, audit axioms. Broken obligations become violations
         (the caller then searches for a failing input)."""
